@@ -90,11 +90,12 @@ func ApplyInclude(ctx context.Context, workingDir string, environment types.Mapp
 						relworkingdir = r.ProjectDirectory
 
 					}
-					for _, f := range included {
-						if f == path {
-							included = append(included, path)
-							return fmt.Errorf("include cycle detected:\n%s\n include %s", included[0], strings.Join(included[1:], "\n include "))
-						}
+				}
+				// override files can close an include cycle as well
+				for _, f := range included {
+					if f == path {
+						included = append(included, path)
+						return fmt.Errorf("include cycle detected:\n%s\n include %s", included[0], strings.Join(included[1:], "\n include "))
 					}
 				}
 			}
